@@ -240,3 +240,18 @@ DIR_NAME_POOL = ["{}", "{} #1", "what now? {}", "100%41 {}", "{} with space", "{
 def dir_name(cid, k):
     """k-th decoration of the directory name for case `cid` (k = 0: plain)."""
     return DIR_NAME_POOL[k % len(DIR_NAME_POOL)].format(cid)
+
+
+def held_handles(ctx, obs, fam, schema, wit, where=""):
+    """Every observe_all compares the handles the case has been holding with handles obtained just now (tracks and
+    crates); a disagreement is a stale handle.  Returns True when a violation was recorded."""
+    if not isinstance(obs, dict):
+        return False
+    ctx.bump("held_handle_comparisons", (obs.get("held_handles_compared") or 0) + (obs.get("held_crate_handles_compared") or 0))
+    for key, what in (("held_handles_disagree", "track"), ("held_crate_handles_disagree", "crate")):
+        dis = obs.get(key)
+        if dis:
+            ctx.violation(f"held-handle-stale {fam} {what} {','.join(map(str, dis[0].get('fields', [])[:3]))}",
+                          f"{schema}: a {what} handle held since an earlier step answers differently from one obtained now{where}: {dis[:2]}", wit)
+            return True
+    return False
